@@ -88,6 +88,10 @@ def stepLine (st : St) (line : String) : St × String :=
   | ["get", n] => doOp st (do pure (.get (← unhex n)))
   | ["del", n] => doOp st (do pure (.delete (← unhex n)))
   | ["list"] => doOp st (some .list)
+  | ["putbad", n] =>
+    match unhex n with
+    | some n => let r := fsPutUnmarshalable st.fs n; ({ st with fs := r.1 }, s!"fs={showOut r.2}")
+    | none => (st, "bad-op")
   | ["race", n, k1, k2] =>
     -- two concurrent Puts of one name into the FS keystore: the exclusive create is atomic, so the
     -- outcome (as a set) is that of the two Puts in sequence; the harness then removes the new key
